@@ -55,15 +55,17 @@ abbrev Call := List Use
 
 inductive PC
   | start
-  | chk | lock | list | next | get | eval | isev | rdval | wrA | wrB | wrcA | wrcArg | wrcB | pop
+  | chkBase | chk | lock | list | next | get | eval | isev | rdval | wrA | wrB | wrcA | wrcArg | wrcB | pop
   | fldTyQ | fldTy | rftIsev | rftRdval | rrfA | rrfB | rrfC | fldOtyQ | addn | clr1 | clr2 | popd | unlock
   | frfPos | frfRet
-  | pv | tcIsev | tcRdval | nested | nestedPv | nestedErr | pvErr
+  | pv | tcIsev | tcRdval | nested | nested2 | nestedPv | nestedErr | pvErr
   | fin | stuck
   deriving DecidableEq, Repr, Inhabited
 
 def PC.label : PC → String
   | .start => "start"
+  | .chkBase => "rfr:chk"      -- ClassParser.resolve_forward_refs (cls.py): the base class's parser first —
+                               --   `Schema`'s own `if not self.forward_refs:`; a FunctionParser starts at its own
   | .chk => "rfr:chk"          -- if not self.forward_refs:
   | .lock => "rfr:lock"        -- with _forward_refs_lock:
   | .list | .next => "rfr:list" -- for name in list(self.forward_refs):
@@ -92,7 +94,8 @@ def PC.label : PC → String
   | .pv => "pv:rdty"           -- type = self.type
   | .tcIsev => "tc:isev"       -- if not t.__forward_evaluated__:
   | .tcRdval => "tc:rdval"     -- t = t.__forward_value__
-  | .nested => "rfr:chk"       -- the referenced class's own parser: if not self.forward_refs:
+  | .nested => "rfr:chk"       -- the referenced class is parsed: its base's parser: if not self.forward_refs:
+  | .nested2 => "rfr:chk"      --   … then its own parser: if not self.forward_refs:
   | .nestedPv => "pv:rdty"     --   … its field `x`: type = self.type
   | .nestedErr => "pv:errty"   --   … and the ParseError of that field
   | .pvErr => "pv:errty"       -- type=self.type,   (building the ParseError)
@@ -136,7 +139,7 @@ def G.init (W : World) : G where
 
 /-- the call is over: record the outcome, forget the locals, go to the next call -/
 def endCall (t : Th) (o : Outcome) : Th :=
-  { pc := if t.calls.tail.isEmpty then .fin else .chk, calls := t.calls.tail, outs := t.outs ++ [o] }
+  { pc := if t.calls.tail.isEmpty then .fin else .chkBase, calls := t.calls.tail, outs := t.outs ++ [o] }
 
 def parseNext (t : Th) : Th :=
   match t.uses with
@@ -203,13 +206,19 @@ def afterType (W : World) (t : Th) (u : Use) (v : Val) (deref : Bool) : Th :=
     | .none => if deref then { t with pc := .pvErr } else nextUse { t with wrongF := true }
     | .junk => { t with pc := .pvErr }
 
+/-- `if not self.forward_refs:` of the parser itself -/
+def stepChk (lg : Bool) (g : G) (t : Th) : G × Th :=
+  if g.pending.isEmpty then (g, startParse t)
+  else (g, { t with pc := if lg then .list else .lock, resolved := false, clear := [], rn := [], exc := none })
+
 /-- One atomic step of thread `tid`.  `lg = true`: the code before the fix. -/
 def stepTh (W : World) (lg : Bool) (tid : Nat) (g : G) (t : Th) : G × Th :=
   match t.pc with
-  | .start => (g, { t with pc := if t.calls.isEmpty then .fin else .chk })
-  | .chk =>
-    if g.pending.isEmpty then (g, startParse t)
-    else (g, { t with pc := if lg then .list else .lock, resolved := false, clear := [], rn := [], exc := none })
+  | .start => (g, { t with pc := if t.calls.isEmpty then .fin else .chkBase })
+  | .chkBase =>
+    -- a class parser first asks the parser of the base class (`Schema`: nothing pending, ever)
+    if W.isFn then stepChk lg g t else (g, { t with pc := .chk })
+  | .chk => stepChk lg g t
   | .lock =>
     match g.lock with
     | none => ({ g with lock := some tid }, { t with pc := .list })
@@ -280,7 +289,8 @@ def stepTh (W : World) (lg : Bool) (tid : Nat) (g : G) (t : Th) : G × Th :=
   | .nested =>
     match t.uses with
     | [] => (g, { t with pc := .stuck })
-    | _ :: _ => (g, { t with pc := .nestedPv })
+    | _ :: _ => (g, { t with pc := .nested2 })
+  | .nested2 => (g, { t with pc := .nestedPv })
   | .nestedPv =>
     match t.uses with
     | [] => (g, { t with pc := .stuck })
